@@ -158,6 +158,8 @@ def check(run):
     for rel in (K.PY_S, K.TC_S):
         f = repo.func(rel, 'StabilizerState.expect')
         dispatch.check_function(run, repo, f)
+        from ..rules import depend
+        depend.check_branch_reads(run, repo, f)
         poly_branch(run, repo, f)
         overlap_branch(run, repo, f)
         effect.check_pure(run, eff, f)
@@ -203,6 +205,7 @@ def check(run):
                repo.func(K.TC_S, 'StabilizerState.expect'), repo.func(K.TC_S, 'StabilizerState.get_prob')]
     resolve.check_cone(run, repo, entries, 'expect')
     run.floor('R14', 8)
+    run.floor('R6.branch', 6)
     run.floor('R3b', 2)
     run.floor('R6.overlap', 2)
     run.floor('R13.par', 4)
